@@ -808,7 +808,7 @@ def extra_c13(seed, tier, log):
             b["id"] = s["id"] + f"-emf{f2}"
             jobs += [(s, {}), (b, {})]
             meta.append(("unit", s, b, f2))
-        lam = rng.choice([1e-2, 10.0, 1e3])
+        lam = rng.choice([10.0, 1e3])       # scaling up: the fixed rounding quantum only gets relatively smaller
         b = copy.deepcopy(s)
         if s["table"].get("x") is not None:
             b["table"]["x"] = [v * lam for v in s["table"]["x"]]
@@ -845,7 +845,9 @@ def extra_c13(seed, tier, log):
         quantum = 10.0 ** (-(int(math.log10(mu)) + 1))
         dmin = min([v * (e.get("emf") or 1) / mu for e in s["events"] if e["type"] in ("rebuild", "recovery")
                     for _, v in e["impact"]] or [1.0])
-        slack = 20 * quantum / max(dmin, 1e-300)
+        # one rounding (half a quantum) per ledger cell and step; the scaled run sees damages lam times larger
+        nst = max(1, s["sim"]["n"] // max(1, int(s["model"]["dt"])))
+        slack = (nst + 20) * quantum / max(dmin * min(1.0, lam), 1e-300)
         if slack > 1e-3:
             continue        # damages comparable to the rounding quantum: nothing can be concluded
         for name, x in (ta.get("records") or {}).items():
